@@ -53,6 +53,7 @@ def run(ctx):
         "obligations": len(real), "discharged": sum(1 for r in real if r.discharged), "canaries": sum(1 for r in results if r.kind == "canary"),
         "solver_s": round(sum(r.seconds for r in results), 2), "back_ends": sorted({r.backend for r in real if r.discharged}),
         "second_back_end": sorted({str(r.second) for r in real if r.second is not None}),
+        "functions_under_contract": ["ccubes.ccube._walk", "ccubes.ccube.walk (entry)", "set_operations.set_intersect_merge_np (set-level lemma over the contract proved under C08)"],
         "names": [r.name for r in real][:60], "proof_stale": stale,
     }
     if stale:
